@@ -119,7 +119,7 @@ def search(ctx, budget_shapes):
 def run(ctx):
     rng = ctx.rng
     ctx.check_theorems()
-    ctx.check_generated(['crop'])
+    ctx.check_generated(['crop', 'kcrop'])
 
     # ---------------- (S) the property's own exhaustive box on the implementation ----------------
     maxs = 7
